@@ -1712,6 +1712,8 @@ nni_pipe_run_cb(nni_pipe *p, nng_pipe_ev ev)
 			cb(pid, ev, arg);
 		}
 		nni_mtx_unlock(&serialize);
+	} else {
+		NNI_VERIF_TRACE("pipe", p, "ev_off", "\"ev\":%d", (int) ev);
 	}
 }
 
